@@ -2,7 +2,8 @@
 
 One case = a location-aware tree, a resource r, a second resource a (start of the relative lookups and the
 resource handed to the absolute ones), a relative path (tuple + string form), elements, an optional
-HTTP_X_VHM_ROOT header and a SCRIPT_NAME.  Thirteen observations per case:
+HTTP_X_VHM_ROOT header and a SCRIPT_NAME.  Sixteen observations per case (13-15: request.resource_url of three more
+resources, each through a new object, on the SAME request as 9-11):
 
   0 resource_path_tuple(r, *els)        1 resource_path(r, *els)
   2 find_resource(a, resource_path_tuple(r))          3 find_resource(a, resource_path(r))
@@ -34,7 +35,10 @@ RULE = ('random trees (depth<=4, fan-out<=4; names: ASCII, reserved URL characte
         'second resource (existing, missing, scheme-like first segment; tuple and string form, the string sometimes '
         'perturbed) x elements x virtual roots (none, \'/\', each ancestor, the resource itself, a string prefix of an '
         'ancestor name, a sibling that extends an ancestor name, names that need quoting / non-ASCII, trailing slash, '
-        'percent-quoted header text, missing path, malformed UTF-8) x SCRIPT_NAME. non-trivial = r is not the root, is '
+        'percent-quoted header text, missing path, malformed UTF-8) x SCRIPT_NAME x resource flavours at every position '
+        '(falsy containers: empty dict subclass / __len__ 0 / __bool__ False; location proxies forwarding __getitem__ through '
+        '__getattr__; instance-level __getitem__) x three more resources whose URLs are asked of the SAME request through '
+        'objects created on demand; every case run over warm and cold caches. non-trivial = r is not the root, is '
         'found back from its own path, and the case has a virtual-root header or a non-empty relative path; distinct by '
         'full case')
 ASSUMPTIONS = [
@@ -104,6 +108,10 @@ NFC_TWIN = {'cafe\u0301': 'caf\xe9', '\u212b': '\xc5', '\u2126': '\u03a9', '\u21
 NAMES += NON_NFC + ['caf\xe9', '\xc5', '\ud55c']
 BAD_NAMES = ['', '.', '..', 'a/b', '@@v', '@@', '\ud800', '/']
 FALSY_KINDS = ['dict', 'len', 'bool']
+# further flavours of a resource, marked in the same field: 'proxy' = a location proxy that adds __name__/__parent__ and
+# forwards everything else (also __getitem__) through __getattr__; 'inst' = __getitem__ supplied as an INSTANCE attribute
+PROXY_KINDS = ['proxy', 'inst']
+MARK_KINDS = FALSY_KINDS + PROXY_KINDS
 SCHEMEY = ['http:', 'https:', 'a:b', 'ftp:', 'HTTP:', 'x:', 'http:x', 'mailto:a@b', 'a:', 'http:?q', 'http:#f', 'urn:a:b']
 
 
@@ -299,6 +307,14 @@ def gen_case(rng):
                 par = node_at(tree, f[0][:-1])
                 par[f[0][-1]][1] = []
         case['falsy'] = fal
+    # location proxies / instance-level __getitem__: how a resource supplies its attributes must not matter
+    x = rng.random()
+    if x < 0.30:
+        pp = 1.0 if x < 0.08 else rng.choice([0.3, 0.6])
+        marked = {tuple(f[0]) for f in case.get('falsy', [])}
+        extra = [[p, rng.choice(PROXY_KINDS)] for p in poss if tuple(p) not in marked and rng.random() < pp]
+        if extra:
+            case['falsy'] = case.get('falsy', []) + extra
     return case
 
 
@@ -376,7 +392,7 @@ def valid(case):
             return False
         t = case['tree']
         for f in case.get('falsy', []):
-            if not (isinstance(f, list) and len(f) == 2 and f[1] in FALSY_KINDS and isinstance(t, list)
+            if not (isinstance(f, list) and len(f) == 2 and f[1] in MARK_KINDS and isinstance(t, list)
                     and _valid_pos(t, f[0])):
                 return False
         if not isinstance(t, list) or not _valid_tree(t) or not _valid_pos(t, case['r']) or not _valid_pos(t, case['a']):
@@ -544,12 +560,34 @@ def urlsplit_ok(path):
         return True
 
 
+NMORE = 3
+
+
+def more_positions(case):
+    """three more resources of the tree (derived from the case) whose URLs are asked of the SAME request object"""
+    poss = list(all_positions(case['tree']))
+    cands = [list(case['a']), list(case['r'][:-1]), poss[-1], poss[len(poss) // 2], list(case['r'])]
+    out = []
+    for p in cands:
+        if p != list(case['r']) and p not in out:
+            out.append(p)
+    for p in cands + poss:
+        if len(out) >= NMORE:
+            break
+        if p not in out:
+            out.append(p)
+    while len(out) < NMORE:
+        out.append(list(case['r']))
+    return out[:NMORE]
+
+
 def to_wire(case):
     return [_tree_wire(case['tree']), list(case['r']), list(case['a']), list(case['rel']), case['rel_str'],
-            list(case['els']), _opt(case['vroot']), case['script'], _opt(host_url_of()), urlsplit_ok(case['rel_str'])]
+            list(case['els']), _opt(case['vroot']), case['script'], _opt(host_url_of()), urlsplit_ok(case['rel_str']),
+            more_positions(case)]
 
 
-NOBS = 13
+NOBS = 13 + NMORE
 
 
 def from_wire(case, raw):
@@ -642,12 +680,50 @@ class DictFolder(dict):
         return '<dictfolder %r>' % (self._pos,)
 
 
+class Located7:
+    """a location proxy: adds __name__ / __parent__ to an arbitrary object and forwards every other attribute,
+    __getitem__ included, through __getattr__ (nothing but the location attributes lives on the proxy or its class)"""
+    def __init__(self, ob, name, parent, pos):
+        d = self.__dict__
+        d['_ob'], d['__name__'], d['__parent__'], d['_pos'] = ob, name, parent, pos
+
+    def __getattr__(self, attr):
+        return getattr(self.__dict__['_ob'], attr)
+
+    def __repr__(self):
+        return '<located %r>' % (self.__dict__['_pos'],)
+
+
+class InstFolder(Res7):
+    """a container whose __getitem__ is an attribute of the INSTANCE (e.g. bound at construction time)"""
+    def __init__(self, name, parent, pos):
+        Res7.__init__(self, name, parent, pos)
+        self._items = []
+
+        def getitem(key):
+            for k, v in self._items:
+                if k == key:
+                    return v
+            raise KeyError(key)
+        self.__getitem__ = getitem
+
+
+class _Plain:
+    pass
+
+
 def build_tree7(t, falsy, name=None, parent=None, pos=()):
     kind = falsy.get(tuple(pos))
     if t is None:
-        return (FalsyLeaf if kind else Res7)(name, parent, list(pos))
-    cls = {None: Folder7, 'bool': FalsyBoolFolder, 'len': FalsyLenFolder, 'dict': DictFolder}[kind]
-    f = cls(name, parent, list(pos))
+        if kind == 'proxy':
+            return Located7(_Plain(), name, parent, list(pos))
+        return (FalsyLeaf if kind in FALSY_KINDS else Res7)(name, parent, list(pos))
+    if kind == 'proxy':
+        f = Located7(Folder7(None, None, list(pos)), name, parent, list(pos))
+    else:
+        cls = {None: Folder7, 'bool': FalsyBoolFolder, 'len': FalsyLenFolder, 'dict': DictFolder, 'inst': InstFolder}[kind]
+        f = cls(name, parent, list(pos))
+    cls = type(f)
     for i, (nm, c) in enumerate(t):
         child = build_tree7(c, falsy, nm, f, pos + (i,))
         f._items.append((nm, child))
@@ -669,7 +745,7 @@ def _exc(e):
 
 
 def _pos(x):
-    return list(x._pos) if isinstance(x, (Res7, DictFolder)) else ['NOT-A-RESOURCE', repr(x)[:40]]
+    return list(x._pos) if isinstance(x, (Res7, DictFolder, Located7)) else ['NOT-A-RESOURCE', repr(x)[:40]]
 
 
 def _find(res, path):
@@ -785,7 +861,31 @@ def _run_once(case):
         ctx, vn = cur['seen']
         return [8, _pos(ctx), vn, [] if cur['viewed'] is None else [_pos(cur['viewed'])]]
     obs.append(_guard(back))
+    # further URLs asked of the SAME request object, each for a resource object created on demand and dropped right
+    # after the call (a container that builds its children per access): nothing may be kept from one call to the next
+    falsy = {tuple(p): k for p, k in case.get('falsy', [])}
+    for p in more_positions(case):
+        obs.append(_guard(lambda p=p: [6, req.resource_url(fresh_resource(case['tree'], falsy, p))]))
     return obs
+
+
+def fresh_resource(tree, falsy, pos):
+    """a NEW object for the resource at pos with a new lineage above it (names and parents only)"""
+    node, t = None, tree
+    cur = build_node7(t, falsy.get(()), None, None, [])
+    for k, i in enumerate(pos):
+        nm, t = t[i]
+        cur = build_node7(t, falsy.get(tuple(pos[:k + 1])), nm, cur, list(pos[:k + 1]))
+    return cur
+
+
+def build_node7(t, kind, name, parent, pos):
+    if kind == 'proxy':
+        return Located7(_Plain() if t is None else Folder7(None, None, pos), name, parent, pos)
+    if t is None:
+        return (FalsyLeaf if kind in FALSY_KINDS else Res7)(name, parent, pos)
+    cls = {None: Folder7, 'bool': FalsyBoolFolder, 'len': FalsyLenFolder, 'dict': DictFolder, 'inst': InstFolder}[kind]
+    return cls(name, parent, pos)
 
 
 # ------------------------------------------------------------------ judging
@@ -873,9 +973,14 @@ def kinds(case, obs):
     if _history_differs(obs) or len(obs) != NOBS:
         return ['history-differs' if _history_differs(obs) else 'harness-problem']
     ks = ['depth:%d' % min(len(case['r']), 4), 'vroot:' + _vroot_kind(case)]
-    fal = {tuple(p): k for p, k in case.get('falsy', [])}
+    marks = {tuple(p): k for p, k in case.get('falsy', [])}
+    lin = [tuple(case['r'][:k]) for k in range(len(case['r']) + 1)]
+    for k in sorted(set(marks.values()) & set(PROXY_KINDS)):
+        ks.append('flavour:' + k)
+    if {marks.get(p) for p in lin} & set(PROXY_KINDS):
+        ks.append('lineage-has-proxy-or-instance-getitem')
+    fal = {p: k for p, k in marks.items() if k in FALSY_KINDS}
     if fal:
-        lin = [tuple(case['r'][:k]) for k in range(len(case['r']) + 1)]
         if tuple(case['r']) in fal:
             ks.append('falsy:r-itself')
             t = node_at(case['tree'], case['r'])
@@ -947,7 +1052,8 @@ OBS_NAMES = ['resource_path_tuple(r,*els)', 'resource_path(r,*els)', 'find_resou
              'find_resource(a, path(r))', 'find_resource(a, rel)', 'find_resource(r, path_tuple(a)+rel)',
              'find_resource(a, rel_str)', 'find_resource(r, path(a)+"/"+rel_str)', 'ResourceURL(r, request)',
              'request.resource_url(r,*els)', 'request.resource_path(r,*els)', 'virtual_root(r, request)',
-             'request of the URL path under the same header']
+             'request of the URL path under the same header'] + \
+    ['request.resource_url(<new object for another resource>) on the same request #%d' % (k + 1) for k in range(3)]
 
 
 def explain(item):
